@@ -158,8 +158,14 @@ def _remove_node_and_replace_values(
     # Update graph/function outputs if the node generates output
     if any(remove_value.is_graph_output() for remove_value in remove_values):
         replacement_mapping = dict(zip(remove_values, new_values))
+        # A removed value may be listed more than once in the graph outputs:
+        # all of its positions share one replacement value
+        aliases: dict[ir.Value, ir.Value] = {}
         for idx, graph_output in enumerate(graph.outputs):
             if graph_output in replacement_mapping:
+                if graph_output in aliases:
+                    graph.outputs[idx] = aliases[graph_output]
+                    continue
                 new_value = replacement_mapping[graph_output]
                 if new_value.is_graph_output() or new_value.is_graph_input():
                     # If the new value is also a graph input/output, we need to
@@ -177,6 +183,7 @@ def _remove_node_and_replace_values(
                         ],
                     )
                     # reuse the name of the graph output
+                    aliases[graph_output] = identity_node.outputs[0]
                     graph.outputs[idx] = identity_node.outputs[0]
                     graph.insert_before(
                         remove_node,
@@ -191,6 +198,7 @@ def _remove_node_and_replace_values(
                         new_value.type = graph_output.type
                     if new_value.shape is None:
                         new_value.shape = graph_output.shape
+                    aliases[graph_output] = new_value
                     graph.outputs[idx] = new_value
 
     # Reconnect the users of the deleted values to use the new values
